@@ -171,6 +171,8 @@ package platform
 // ---- C06 / C17: a platform hook runs its steps in order and stops at the first step that fails, with that step's error ----
 // stepErr: ghost - the error the step call of the current iteration returned (nil at the top of every iteration)
 //@ ghost stepErr error
+// acqDone: ghost - the current step called AcquirePriv
+//@ ghost acqDone bool
 //@ func (*onXDefinitions).asNetworkOnX$1 [C06 C17]
 //@   maypanic
 //@   requires d.Channel != nil && RI(d.Channel.Q) && d.Channel.PromptSearchDepth >= 0 && d.DefaultDesiredPriv != "" && graphOK(d)
@@ -179,6 +181,9 @@ package platform
 //@   after call channelWrite#1 set stepErr = result
 //@   after call WriteReturn#1 set stepErr = result
 //@   after call AcquirePriv#1 set stepErr = result
+//@   loop 1 set acqDone = false
+//@   after call AcquirePriv#1 set acqDone = true
+//@   loop 1 continue [C17 C04] #an-acquire-priv-step-always-re-reads-the-prompt-and-acquires opType == "acquire-priv" ==> acqDone
 //@   after call SendCommand#1 set stepErr = result.1
 //@   loop 1 continue #the-next-step-runs-only-after-a-step-without-error stepErr == nil
 //@   at return assert #a-failing-step-ends-the-sequence-with-its-error stepErr != nil ==> result == stepErr
